@@ -39,7 +39,7 @@ CLAIMS = {
              "near and far coordinate embeddings, plus seeded scenarios (a1/a4/24bpp destinations, alpha maps, glyphs, "
              "trapezoids); TLC validates that pixman_compute_composite_region reports exactly that region and FALSE iff "
              "empty, and that every drawing entry point changes no bit of the logged allocation (guard bytes, row "
-             "padding, sub-byte neighbours, alpha-map buffer) outside the region's pixels. " + 'Every third composite request whose arguments fit goes through pixman_image_composite, the 16-bit entry point.' + "",
+             "padding, sub-byte neighbours, alpha-map buffer) outside the region's pixels. " + 'Every third composite request whose arguments fit goes through pixman_image_composite, the 16-bit entry point. ' + 'The clip of a source\'s or mask\'s alpha map, when enabled for sources on the alpha-map image, takes part placed at the alpha origin (Composite!ClipByAlphaMap; role x origin x flags x own clips). Extra stage: the root specification spec/Pixman.tla (pool of regions + pool of images with formats, masks, repeat modes, integer translations, fills, reference counts) - PixmanSysMC explores its call histories with eight relations evaluated in every state and two negative configurations, and generated histories are replayed and validated pixel for pixel (PixmanTrace).' + "",
         ref="5 C03"),
 }
 
